@@ -323,7 +323,7 @@ def run_muf(ctx, d):
                     return m(phi2)
         return ctx.impl_call(d, f)
     if "rescale" in d["extra"]:
-        for cst in (3.0, 0.5):
+        for cst in (3.0, 0.5, 2.0 ** -30, 2.0 ** 20):
             ok2, s2 = again((phi * np.float32(cst)).astype(np.float32))
             if ok2:
                 ctx.check_pred("positive-rescaling", [s2], [Fraction(score)], d, rtol=1e-9, atol=1e-9)
